@@ -576,6 +576,20 @@ func (w *worker) runC20(p *harness.Pkg, t *tape.Tape, logOn bool) *verdict {
 			}
 		}
 		rp.AuthReject = t.Flip(1, 6, "auth-reject")
+		// a twin: same operation and exactly the same request values as an earlier typed request of this run
+		if i > 0 && rp.Kind == 0 && t.Flip(1, 4, "twin") {
+			src := plan.Reqs[t.Choose(i, "twin-of")]
+			if src.Kind == 0 {
+				rp.Op, rp.ValueSeed, rp.Level, rp.SetAll, rp.NoEmpty = src.Op, src.ValueSeed, src.Level, src.SetAll, src.NoEmpty
+				rp.ValueTag = src.Tag
+				if src.ValueTag != "" {
+					rp.ValueTag = src.ValueTag
+				}
+				rp.RespIdx = rp.RespIdx % len(p.Ops[rp.Op].RespTypes)
+				v0 := 0
+				_ = v0
+			}
+		}
 		plan.Reqs = append(plan.Reqs, rp)
 	}
 	// reference: every request alone, zero tape, fresh API and Client
